@@ -119,7 +119,51 @@ F1L ==
     /\ dev = Cfg([E0_in |-> a], [E0 |-> I("", "E0_in", "")], {}, FALSE)
     /\ tgt = Cfg([E0_in |-> b], [E0 |-> I("", "E0_in", "")], {}, FALSE)
 
-Init == CASE Fam = "F1L" -> F1L [] Fam = "M1" -> M1 [] Fam = "F1" -> F1 [] Fam = "F3" -> F3 [] Fam = "F4" -> F4 [] Fam = "F7" -> F7 [] Fam = "F8" -> F8
+(* V1L: crypto maps with in/out filter ACLs.  Entries are matched by peer, sequence numbers and   *)
+(* names differ between device and target, filter ACLs are added, removed, moved between the      *)
+(* directions, replaced and edited in place; a hand-made crypto map at an unknown interface.      *)
+FA  == <<Ace("permit", "ip", T("host", "h1"), T("host", "h3")), Ace("deny", "ip", T("any", ""), T("any", ""))>>
+FA2 == <<Ace("permit", "ip", T("host", "h1"), T("host", "h3")), Ace("permit", "tcp80", T("any", ""), T("host", "h3")),
+         Ace("deny", "ip", T("any", ""), T("any", ""))>>
+FB  == <<Ace("permit", "udp53", T("net", "n34"), T("any", "")), Ace("deny", "ip", T("any", ""), T("any", ""))>>
+FContent(c) == CASE c = "A" -> FA [] c = "A2" -> FA2 [] c = "B" -> FB
+EntryOpts == [peer : {"p1", "p2", "p3"}, fin : {"", "A", "A2", "B"}, fout : {"", "A"}]
+EntrySets(seqs) == UNION {{e \in [S -> EntryOpts] : \A x, y \in S : x # y => e[x].peer # e[y].peer} :
+                          S \in {S \in SUBSET seqs : Cardinality(S) <= 2}}
+SeqStr(n) == CASE n = 1 -> "1" [] n = 2 -> "2" [] n = 3 -> "3"
+FName(n, d, sfx) == "cf" \o SeqStr(n) \o d \o sfx
+CmKey(name, n) == name \o " " \o SeqStr(n)
+VCfg(es, name, sfx, foreign) ==
+  LET S == DOMAIN es
+      facls == [n \in {FName(x, "in", sfx) : x \in {y \in S : es[y].fin # ""}} \cup
+                      {FName(x, "out", sfx) : x \in {y \in S : es[y].fout # ""}} |->
+                  LET x == CHOOSE y \in S : n \in {FName(y, "in", sfx), FName(y, "out", sfx)} IN
+                  IF n = FName(x, "in", sfx) THEN FContent(es[x].fin) ELSE FContent(es[x].fout)]
+      base  == [n \in {"E0_in"} |-> Keep]
+      fgn   == IF foreign THEN [n \in {"foreign"} |-> FB] ELSE NoFn
+      acls  == [n \in DOMAIN facls \cup DOMAIN base \cup DOMAIN fgn |->
+                  IF n \in DOMAIN facls THEN facls[n] ELSE IF n \in DOMAIN base THEN base[n] ELSE fgn[n]]
+      cm    == [k \in {CmKey(name, x) : x \in S} |->
+                  LET x == CHOOSE y \in S : k = CmKey(name, y) IN
+                  [name |-> name, seq |-> x, peers |-> {es[x].peer},
+                   fin |-> IF es[x].fin = "" THEN "" ELSE FName(x, "in", sfx),
+                   fout |-> IF es[x].fout = "" THEN "" ELSE FName(x, "out", sfx)]]
+      fcm   == IF foreign THEN [k \in {"OTHER 1"} |-> [name |-> "OTHER", seq |-> 1, peers |-> {"p3"}, fin |-> "foreign", fout |-> ""]]
+               ELSE NoFn
+      cmaps == [k \in DOMAIN cm \cup DOMAIN fcm |-> IF k \in DOMAIN cm THEN cm[k] ELSE fcm[k]]
+      intfs == IF foreign THEN [i \in {"E0", "E2"} |-> I("", IF i = "E0" THEN "E0_in" ELSE "", "")]
+               ELSE [E0 |-> I("", "E0_in", "")]
+      ifcm  == [i \in DOMAIN intfs |-> IF i = "E0" THEN (IF S = {} THEN "" ELSE name) ELSE "OTHER"]
+  IN [acls |-> acls, intfs |-> intfs, routes |-> {}, xe |-> FALSE, cmaps |-> cmaps, ifcm |-> ifcm]
+V1L ==
+  \E ed \in RandomSubset(70, EntrySets({1, 2, 3})), et \in RandomSubset(60, EntrySets({1, 2})),
+     nm \in {"VPN", "VPN-DRC-0"}, sfx \in {"", "-DRC-0"}, foreign \in BOOLEAN :
+    /\ (DOMAIN ed = {} => nm = "VPN" /\ sfx = "")
+    /\ DOMAIN et \in {{}, {1}, {1, 2}}
+    /\ dev = VCfg(ed, nm, sfx, foreign)
+    /\ tgt = VCfg(et, "VPN", "", FALSE)
+
+Init == CASE Fam = "V1L" -> V1L [] Fam = "F1L" -> F1L [] Fam = "M1" -> M1 [] Fam = "F1" -> F1 [] Fam = "F3" -> F3 [] Fam = "F4" -> F4 [] Fam = "F7" -> F7 [] Fam = "F8" -> F8
 Next == UNCHANGED <<dev, tgt>>
 Out == PrintT(<<"VOUT", ToJson([fam |-> Fam, dev |-> dev, tgt |-> tgt, tie |-> FALSE])>>)
 =============================================================================
